@@ -11,9 +11,9 @@ import (
 	"unsafe"
 
 	"github.com/philpearl/plenc"
-	"github.com/unravelin/null"
 	"github.com/philpearl/plenc/plenccodec"
 	"github.com/philpearl/plenc/plenccore"
+	"github.com/unravelin/null"
 	"vharness/cat"
 	"vharness/vrt"
 )
@@ -158,16 +158,22 @@ func longPrefixTotal(fresh func() interface{}, describe bool) {
 	vrt.Cover("returned")
 }
 
-func H04l_LongPrefix_TIn()       { longPrefixTotal(func() interface{} { return new(cat.TIn) }, false) }
-func H04l_LongPrefix_TCounted()  { longPrefixTotal(func() interface{} { return new(cat.TCounted) }, false) }
-func H04l_LongPrefix_TMapSI()    { longPrefixTotal(func() interface{} { return new(cat.TMapSI) }, false) }
-func H04l_LongPrefix_TTime()     { longPrefixTotal(func() interface{} { return new(cat.TTime) }, false) }
-func H04l_LongPrefix_TPacked()   { longPrefixTotal(func() interface{} { return new(cat.TPacked) }, false) }
-func H04l_LongPrefix_TopIns()    { longPrefixTotal(func() interface{} { return new(cat.TopIns) }, false) }
-func H04l_LongPrefixD_TIn()      { longPrefixTotal(func() interface{} { return new(cat.TIn) }, true) }
-func H04l_LongPrefixD_TCounted() { longPrefixTotal(func() interface{} { return new(cat.TCounted) }, true) }
-func H04l_LongPrefixD_TMapSI()   { longPrefixTotal(func() interface{} { return new(cat.TMapSI) }, true) }
-func H04l_LongPrefixD_TTime()    { longPrefixTotal(func() interface{} { return new(cat.TTime) }, true) }
+func H04l_LongPrefix_TIn() { longPrefixTotal(func() interface{} { return new(cat.TIn) }, false) }
+func H04l_LongPrefix_TCounted() {
+	longPrefixTotal(func() interface{} { return new(cat.TCounted) }, false)
+}
+func H04l_LongPrefix_TMapSI() { longPrefixTotal(func() interface{} { return new(cat.TMapSI) }, false) }
+func H04l_LongPrefix_TTime()  { longPrefixTotal(func() interface{} { return new(cat.TTime) }, false) }
+func H04l_LongPrefix_TPacked() {
+	longPrefixTotal(func() interface{} { return new(cat.TPacked) }, false)
+}
+func H04l_LongPrefix_TopIns() { longPrefixTotal(func() interface{} { return new(cat.TopIns) }, false) }
+func H04l_LongPrefixD_TIn()   { longPrefixTotal(func() interface{} { return new(cat.TIn) }, true) }
+func H04l_LongPrefixD_TCounted() {
+	longPrefixTotal(func() interface{} { return new(cat.TCounted) }, true)
+}
+func H04l_LongPrefixD_TMapSI() { longPrefixTotal(func() interface{} { return new(cat.TMapSI) }, true) }
+func H04l_LongPrefixD_TTime()  { longPrefixTotal(func() interface{} { return new(cat.TTime) }, true) }
 
 // ---------------------------------------------------------------------- C05
 
@@ -781,7 +787,10 @@ func H13j_Numbers() {
 		return
 	}
 	f64 := func(f float64) jtok { return jtok{tNumber, "f64:" + strconv.FormatUint(math.Float64bits(f), 16)} }
-	exp := []jtok{{K: tStartObj}, {tName, "A"}, f64(v), {tName, "B"}, f64(float64(in.B)),
+	f32 := func(f float32) jtok {
+		return jtok{tNumber, "f32:" + strconv.FormatUint(uint64(math.Float32bits(f)), 16)}
+	}
+	exp := []jtok{{K: tStartObj}, {tName, "A"}, f64(v), {tName, "B"}, f32(in.B),
 		{tName, "C"}, {K: tStartArr}, f64(v), f64(-v), {K: tEndArr}, {tName, "P"}, f64(v)}
 	same := len(toks) == len(exp)+5
 	vrt.Assert("token count", same)
@@ -867,4 +876,425 @@ func H05b_StringLaws() {
 		vrt.Assert("unmarshal ok", p.Unmarshal(data, &out) == nil)
 		vrt.Assert("round trip", vrt.And(out.R.S == s, vrt.And(out.R.N == 1, out.Z == 3)))
 	}
+}
+
+// ------------------------------------------------------- C01 / C02 / C10 / C12
+
+type countRow struct {
+	L []string       `plenc:"1"`
+	Q []BigIn        `plenc:"2"`
+	I []int          `plenc:"3"`
+	M map[int]string `plenc:"4"`
+	Z int            `plenc:"5"`
+}
+
+// H01b_ManyCounted: element and entry counts on both sides of the 1/2-byte
+// count varint (127, 128, 129, 300): counted slices of strings and structs, a
+// packed slice whose body crosses the same boundary, a map with that many
+// entries. Shapes concrete, a few contents symbolic; decoded through the
+// default reader and compared element for element; the counted prefix is
+// checked against the documented layout.
+func H01b_ManyCounted() {
+	n := []int{127, 128, 129, 300}[vrt.Choice("n", 4)]
+	var in countRow
+	in.Z = smallSym("Z")
+	x, y := vrt.String("x", 1), smallSym("y")
+	switch vrt.Choice("field", 4) {
+	case 0:
+		in.L = make([]string, n)
+		in.L[0], in.L[n-1] = x, x
+	case 1:
+		in.Q = make([]BigIn, n)
+		in.Q[0].N, in.Q[n-1].N = y, y
+	case 2:
+		in.I = make([]int, n)
+		in.I[0], in.I[n-1] = y, y
+	default:
+		in.M = make(map[int]string, n)
+		for i := 0; i < n; i++ {
+			in.M[i] = ""
+		}
+		in.M[n-1] = x
+	}
+	p := newPlenc(cfgDef)
+	data, err := p.Marshal(nil, &in)
+	vrt.Assert("marshal ok", err == nil)
+	if in.M == nil {
+		var exp []byte
+		if in.L != nil {
+			exp = refVarint(refTag(exp, 3, 1), uint64(n))
+			for _, s := range in.L {
+				exp = refVarint(exp, uint64(len(s)))
+				exp = append(exp, s...)
+			}
+		}
+		if in.Q != nil {
+			exp = refVarint(refTag(exp, 3, 2), uint64(n))
+			for _, q := range in.Q {
+				var e []byte
+				if q.N != 0 {
+					e = refVarint(refTag(e, 0, 2), refZigZag(int64(q.N)))
+				}
+				exp = refVarint(exp, uint64(len(e)))
+				exp = append(exp, e...)
+			}
+		}
+		if in.I != nil {
+			var body []byte
+			for _, v := range in.I {
+				body = refVarint(body, refZigZag(int64(v)))
+			}
+			exp = refLenField(exp, 3, body)
+		}
+		exp = refVarint(refTag(exp, 0, 5), refZigZag(int64(in.Z)))
+		vrt.Assert("bytes == documented encoding", vrt.BytesEq(data, exp))
+	}
+	var out countRow
+	vrt.Assert("unmarshal ok", p.Unmarshal(data, &out) == nil)
+	ok := len(out.L) == len(in.L) && len(out.Q) == len(in.Q) && len(out.I) == len(in.I) && len(out.M) == len(in.M)
+	vrt.Assert("counts", ok)
+	if ok {
+		eq := out.Z == in.Z
+		for i := range in.L {
+			eq = vrt.And(eq, out.L[i] == in.L[i])
+		}
+		for i := range in.Q {
+			eq = vrt.And(eq, vrt.And(out.Q[i].N == in.Q[i].N, out.Q[i].S == ""))
+		}
+		for i := range in.I {
+			eq = vrt.And(eq, out.I[i] == in.I[i])
+		}
+		for k, v := range in.M {
+			got, present := out.M[k]
+			eq = vrt.And(eq, vrt.And(present, got == v))
+		}
+		vrt.Assert("round trip", eq)
+	}
+	// the same data into a re-used target that is larger than needed
+	var again countRow
+	again.L = make([]string, n+5)
+	again.Q = make([]BigIn, n+5)
+	again.I = make([]int, n+5)
+	for i := range again.L {
+		again.L[i], again.Q[i].S, again.I[i] = "old", "old", 9
+	}
+	vrt.Assert("unmarshal into a re-used target ok", p.Unmarshal(data, &again) == nil)
+	ok = len(again.L) == len(in.L)+boolN(in.L == nil)*(n+5) && len(again.Q) == len(in.Q)+boolN(in.Q == nil)*(n+5) && len(again.I) == len(in.I)+boolN(in.I == nil)*(n+5)
+	vrt.Assert("re-used target: decoded fields hold exactly the encoded elements, absent fields keep theirs", ok)
+	if ok && in.Q != nil {
+		vrt.Assert("re-used target: elements cleared before reuse", vrt.And(again.Q[1].S == "", again.Q[n-1].N == in.Q[n-1].N))
+	}
+}
+
+func boolN(b bool) int {
+	if b {
+		return 1
+	}
+	return 0
+}
+
+func H02b_ManyCounted() { H01b_ManyCounted() }
+func H10b_ManyCounted() { H01b_ManyCounted() }
+
+// H17_SharedInstance: a Plenc instance that has already built codecs for
+// other types sharing element, field and option combinations produces, for
+// every type, exactly the bytes a fresh instance produces - in either build
+// order.
+func H17_SharedInstance() {
+	n := smallSym("n")
+	s := vrt.String("s", 1)
+	mix := cat.TProtoMix{A: []string{s}, B: []string{s, "x"}}
+	mix2 := cat.TProtoMix2{B: []string{s}, A: []string{"y", s}}
+	cnt := cat.TCounted{A: []string{s}, C: []cat.TIn{{X: n, Y: s}}}
+	pt := cat.TProtoT{T: []cat.TIn{{X: n}}, U: []*cat.TIn{{Y: s}}}
+	nest := cat.TNested{A: cat.TIn{X: n, Y: s}, B: n}
+	fl := cat.TInts{A: n, B: 7, C: 3}
+	vals := []interface{}{&mix, &mix2, &cnt, &pt, &nest, &fl}
+	shared := newPlenc(cfgDef)
+	order := vrt.Choice("order", 3)
+	got := make([][]byte, len(vals))
+	for k := range vals {
+		i := k
+		switch order {
+		case 1:
+			i = len(vals) - 1 - k
+		case 2:
+			i = (k + 3) % len(vals)
+		}
+		got[i] = mustMarshal(shared, vals[i])
+	}
+	ok := true
+	for i, v := range vals {
+		fresh := mustMarshal(newPlenc(cfgDef), v)
+		ok = vrt.And(ok, vrt.BytesEq(got[i], fresh))
+	}
+	vrt.Assert("bytes from a shared instance == bytes from a fresh instance, for every type and build order", ok)
+}
+
+// ------------------------------------------------------ known finding (C01/C09)
+
+// ptrPtrNil: a non-nil pointer to a nil pointer. The pointer codec writes
+// nothing for it (the inner nil is omitted and the outer pointer has no
+// encoding of its own), so it reads back as a nil outer pointer. This is the
+// subject of a committed known finding; the generated per-type harnesses do
+// not draw this value, so every other violation on such types is still reported.
+func ptrPtrNil() {
+	p := newPlenc(cfgDef)
+	var inner *int
+	in := cat.TPP{P: &inner}
+	data, err := p.Marshal(nil, &in)
+	vrt.Assert("marshal ok", err == nil)
+	var out cat.TPP
+	vrt.Assert("unmarshal ok", p.Unmarshal(data, &out) == nil)
+	vrt.Assert("a non-nil pointer to a nil pointer reads back as it was", out.P != nil && *out.P == nil)
+}
+
+func H01k_PtrPtrNil() { ptrPtrNil() }
+func H09k_PtrPtrNil() { ptrPtrNil() }
+
+// ---------------------------------------------------------------- round 5
+
+type boolRow struct {
+	A bool   `plenc:"1"`
+	L []bool `plenc:"2"`
+	Z int    `plenc:"3"`
+}
+
+// H02d_BoolWide: bools are plain varints; any non-zero varint of any width
+// decodes to true (protobuf's rule, and what plenc's reader does), zero to
+// false - as a field and as a packed element.
+func H02d_BoolWide() {
+	p := newPlenc(cfgDef)
+	v, w := vrt.U64("v"), vrt.U64("w")
+	data := refVarint(refTag(nil, 0, 1), v)
+	data = refLenField(data, 2, refVarint(refVarint(nil, w), 1))
+	data = refVarint(refTag(data, 0, 3), 2)
+	var out boolRow
+	vrt.Assert("unmarshal ok", p.Unmarshal(data, &out) == nil)
+	vrt.Assert("field: non-zero varint is true", out.A == (v != 0))
+	ok := len(out.L) == 2
+	vrt.Assert("packed element count", ok)
+	if ok {
+		vrt.Assert("packed element: non-zero varint is true", vrt.And(out.L[0] == (w != 0), out.L[1]))
+	}
+	vrt.Assert("following field", out.Z == 1)
+}
+
+// nestedLong: structured hostile input. A concrete, well-formed framing
+// prefix (tags, counts and lengths that cover exactly the rest of the input;
+// 0xFF below stands for "number of bytes that follow") leads the decoder to a
+// length, count or value at some nesting position of the target, where a
+// 10-byte varint (all symbolic: 2^63 and above included) and one further
+// symbolic byte stand.
+type nestedLong struct {
+	fresh func() interface{}
+	head  []byte
+}
+
+var nestedLongCases = []nestedLong{
+	// map[string]int field 1: count, entry length, key length, value
+	{func() interface{} { return new(cat.TMapSI) }, []byte{0x0B}},
+	{func() interface{} { return new(cat.TMapSI) }, []byte{0x0B, 0x01}},
+	{func() interface{} { return new(cat.TMapSI) }, []byte{0x0B, 0x01, 0xFF, 0x0A}},
+	{func() interface{} { return new(cat.TMapSI) }, []byte{0x0B, 0x01, 0xFF, 0x10}},
+	// map[string]TIn: length of the struct value, of a string inside it
+	{func() interface{} { return new(cat.TMapS) }, []byte{0x0B, 0x01, 0xFF, 0x12}},
+	{func() interface{} { return new(cat.TMapS) }, []byte{0x0B, 0x01, 0xFF, 0x12, 0xFF, 0x12}},
+	// proto-tagged map entry
+	{func() interface{} { return new(cat.TProtoM) }, []byte{0x0A, 0xFF, 0x0A}},
+	// []string element length; []TIn element length and a string inside the element
+	{func() interface{} { return new(cat.TCounted) }, []byte{0x0B, 0x01}},
+	{func() interface{} { return new(cat.TCounted) }, []byte{0x1B, 0x01}},
+	{func() interface{} { return new(cat.TCounted) }, []byte{0x1B, 0x01, 0xFF, 0x12}},
+	// nested struct: inner string length, inner unknown field
+	{func() interface{} { return new(cat.TNested) }, []byte{0x0A, 0xFF, 0x12}},
+	{func() interface{} { return new(cat.TNested) }, []byte{0x0A, 0xFF, 0x3A}},
+	// time inside a struct: unknown length-delimited field inside the time body
+	{func() interface{} { return new(cat.TTime) }, []byte{0x0A, 0xFF, 0x1A}},
+	// pointer to struct, slice of pointers
+	{func() interface{} { return new(cat.TPtrs) }, []byte{0x1A, 0xFF, 0x12}},
+	{func() interface{} { return new(cat.TCountedP) }, []byte{0x0B, 0x01, 0xFF, 0x12}},
+}
+
+func nestedLongInput(head []byte) []byte {
+	sym := vrt.BytesTail("d", 11, 4)
+	for i := 0; i < 9; i++ {
+		vrt.Assume(sym[i] >= 0x80)
+	}
+	vrt.Assume(sym[9] < 0x80)
+	data := make([]byte, 0, len(head)+11)
+	for i, b := range head {
+		if b == 0xFF {
+			b = byte(len(head) - i - 1 + 11)
+		}
+		data = append(data, b)
+	}
+	data = append(data, sym...)
+	vrt.LoopBound(len(data) + 16)
+	vrt.AllocBudget(int64(4096 * (len(data) + 1)))
+	return data
+}
+
+// H04l_NestedLongPrefix / H04l_NestedLongPrefixD: Unmarshal / Descriptor.Read.
+func H04l_NestedLongPrefix()  { nestedLongTotal(false) }
+func H04l_NestedLongPrefixD() { nestedLongTotal(true) }
+
+func nestedLongTotal(describe bool) {
+	k := nestedLongCases[vrt.Choice("case", len(nestedLongCases))]
+	p := newPlenc(cfgDef)
+	c, err := p.CodecForType(reflect.TypeOf(k.fresh()).Elem())
+	if err != nil {
+		vrt.Assert("codec built", false)
+		return
+	}
+	data := nestedLongInput(k.head)
+	if describe {
+		d := c.Descriptor()
+		vrt.Measure(func() { _ = d.Read(nopOut{}, data) })
+	} else {
+		out := k.fresh()
+		vrt.Measure(func() { _ = p.Unmarshal(data, out) })
+	}
+	vrt.Cover("returned")
+}
+
+type strJSONRow struct {
+	S string         `plenc:"1"`
+	B []byte         `plenc:"2"`
+	M map[string]int `plenc:"3"`
+	L []string       `plenc:"4"`
+}
+
+// H13j_Strings: the whole chain for string payloads: every byte value below
+// 0x80 (quotes, backslashes, control characters) as a string field, a map
+// key and a slice element goes through Marshal, the Descriptor walk and the
+// real JSON outputter and parses back to itself.
+func H13j_Strings() {
+	c0 := vrt.U8("c")
+	vrt.Assume(c0 < 0x80)
+	s := string([]byte{'a', c0})
+	in := strJSONRow{S: s, M: map[string]int{s: 1}, L: []string{s, ""}}
+	p := newPlenc(cfgDef)
+	data, err := p.Marshal(nil, &in)
+	vrt.Assert("marshal ok", err == nil)
+	c, err := p.CodecForType(reflect.TypeOf(in))
+	vrt.Assert("codec ok", err == nil)
+	if err != nil {
+		return
+	}
+	d := c.Descriptor()
+	var out plenccodec.JSONOutput
+	vrt.Assert("descriptor walk ok", d.Read(&out, data) == nil)
+	js := out.Done()
+	vrt.ObserveBytes("json", js)
+	toks, ok := jsonParse(js)
+	vrt.Assert("output is one valid JSON document", ok)
+	if !ok {
+		return
+	}
+	exp := []jtok{{K: tStartObj}, {tName, "S"}, {tString, s}, {tName, "M"}, {K: tStartObj}, {tName, s}, {tNumber, "1"}, {K: tEndObj},
+		{tName, "L"}, {K: tStartArr}, {tString, s}, {tString, ""}, {K: tEndArr}, {K: tEndObj}}
+	vrt.Assert("document equals the value", sameTokens(exp, toks))
+}
+
+type anonRow struct {
+	A struct {
+		X int `plenc:"1"`
+	} `plenc:"1"`
+	L []struct {
+		Y string `plenc:"1"`
+	} `plenc:"2"`
+	M map[string]struct {
+		Z bool `plenc:"1"`
+	} `plenc:"3"`
+	P *struct {
+		W uint `plenc:"1"`
+	} `plenc:"4"`
+}
+
+// H14a_Anonymous: anonymous struct types have no type name: their descriptors
+// carry an empty TypeName at every position (field, element, map value,
+// pointer target); everything else mirrors the definition.
+func H14a_Anonymous() {
+	p := newPlenc(cfgDef)
+	c, err := p.CodecForType(reflect.TypeOf(anonRow{}))
+	vrt.Assert("codec ok", err == nil)
+	if err != nil {
+		return
+	}
+	got := c.Descriptor()
+	leaf := func(idx int, name string, t plenccodec.FieldType) plenccodec.Descriptor {
+		return plenccodec.Descriptor{Index: idx, Name: name, Type: t}
+	}
+	st := func(idx int, name string, e plenccodec.Descriptor) plenccodec.Descriptor {
+		return plenccodec.Descriptor{Index: idx, Name: name, Type: plenccodec.FieldTypeStruct, Elements: []plenccodec.Descriptor{e}}
+	}
+	val := st(2, "value", leaf(1, "Z", plenccodec.FieldTypeBool))
+	entry := plenccodec.Descriptor{Type: plenccodec.FieldTypeStruct, LogicalType: plenccodec.LogicalTypeMapEntry,
+		Elements: []plenccodec.Descriptor{leaf(1, "key", plenccodec.FieldTypeString), val}}
+	ptr := st(4, "P", leaf(1, "W", plenccodec.FieldTypeUint))
+	ptr.ExplicitPresence = true
+	want := plenccodec.Descriptor{Type: plenccodec.FieldTypeStruct, TypeName: "anonRow", Elements: []plenccodec.Descriptor{
+		st(1, "A", leaf(1, "X", plenccodec.FieldTypeInt)),
+		{Index: 2, Name: "L", Type: plenccodec.FieldTypeSlice, Elements: []plenccodec.Descriptor{st(0, "", leaf(1, "Y", plenccodec.FieldTypeString))}},
+		{Index: 3, Name: "M", Type: plenccodec.FieldTypeSlice, LogicalType: plenccodec.LogicalTypeMap, Elements: []plenccodec.Descriptor{entry}},
+		ptr,
+	}}
+	vrt.Assert("descriptor mirrors the definition; anonymous structs have an empty type name", descEq(&got, &want))
+	// descEq does not compare the synthesised map-entry type name; anonymous value types must not leak into it as Go syntax
+	en := got.Elements[2].Elements[0].TypeName
+	clean := true
+	for i := 0; i < len(en); i++ {
+		if en[i] == ' ' || en[i] == '{' || en[i] == '"' {
+			clean = false
+		}
+	}
+	vrt.Assert("map-entry type name is an identifier, not Go type syntax", clean)
+}
+
+// H17p_DefaultOverride_Proc: a registration made through the package-level
+// functions before their first use is the one they use, also for a (type,
+// tag) pair the default set contains - exactly like an instance configured
+// the same way. Runs in a process of its own natively (the package-level
+// default is process-wide state); the float32 codec is restored at the end.
+func H17p_DefaultOverride_Proc() {
+	plenc.RegisterCodec(reflect.TypeOf(float32(0)), markCodecF{})
+	f := math.Float32frombits(vrt.U32("f"))
+	type row struct {
+		F float32 `plenc:"1"`
+	}
+	in := row{F: f}
+	got, err := plenc.Marshal(nil, &in)
+	vrt.Assert("package marshal ok", err == nil)
+	p := new(plenc.Plenc)
+	p.RegisterDefaultCodecs()
+	p.RegisterCodec(reflect.TypeOf(float32(0)), markCodecF{})
+	want, err := p.Marshal(nil, &in)
+	vrt.Assert("instance marshal ok", err == nil)
+	vrt.Assert("package-level functions behave like an instance configured the same way", vrt.BytesEq(got, want))
+	vrt.Assert("the registered codec is the one used", vrt.BytesEq(got, append(refTag(nil, 0, 1), refMark(nil, math.Float32bits(f))...)))
+	plenc.RegisterCodec(reflect.TypeOf(float32(0)), plenccodec.Float32Codec{})
+}
+
+// markCodecF: the marker encoding for float32 values (bits as the payload).
+type markCodecF struct{}
+
+func (markCodecF) Omit(ptr unsafe.Pointer) bool { return false }
+func (markCodecF) Read(data []byte, ptr unsafe.Pointer, wt plenccore.WireType) (int, error) {
+	u, n := plenccore.ReadVarUint(data)
+	if n <= 0 {
+		return 0, errBad
+	}
+	*(*float32)(ptr) = math.Float32frombits(uint32(u))
+	return n, nil
+}
+func (markCodecF) New() unsafe.Pointer          { return unsafe.Pointer(new(float32)) }
+func (markCodecF) WireType() plenccore.WireType { return plenccore.WTVarInt }
+func (markCodecF) Descriptor() plenccodec.Descriptor {
+	return plenccodec.Descriptor{Type: plenccodec.FieldTypeUint}
+}
+func (markCodecF) Size(ptr unsafe.Pointer, tag []byte) int { return len(tag) + 6 }
+func (markCodecF) Append(data []byte, ptr unsafe.Pointer, tag []byte) []byte {
+	data = append(data, tag...)
+	return plenccore.AppendVarUint(data, markVal(math.Float32bits(*(*float32)(ptr))))
 }
